@@ -3,6 +3,10 @@
 //! (`impl.txt`), the implementation-side oracle's findings (`oracle.jsonl`) and the input
 //! distribution (`stats.json`).
 pub mod common;
+pub mod text;
+pub mod gen_codepages;
+pub mod c10;
+pub mod c12;
 pub mod c13;
 pub mod c14;
 pub mod c15;
